@@ -51,6 +51,7 @@ fn map_vars(c: &Con, f: &dyn Fn(usize) -> usize) -> Con {
 fn op_mentions(op: &Op, var: usize) -> bool {
     match op {
         Op::Post(c) => c.scope().contains(&var),
+        Op::AddVar(d) => d.link.is_some_and(|p| p.var == var),
         Op::Assume { preds, .. } => preds.iter().any(|p| p.var == var),
         Op::Optimise { obj, .. } => obj.var == var,
         _ => false,
@@ -75,7 +76,11 @@ fn remove_var(case: &Case, k: usize) -> Option<Case> {
         match op {
             Op::AddVar(d) => {
                 if seen != k {
-                    out.ops.push(Op::AddVar(d.clone()));
+                    let mut d = d.clone();
+                    if let Some(p) = d.link.as_mut() {
+                        p.var = f(p.var);
+                    }
+                    out.ops.push(Op::AddVar(d));
                 }
                 seen += 1;
             }
@@ -130,6 +135,11 @@ pub fn valid(case: &Case) -> bool {
                 }
                 if d.kind == VarKind::Interval && (d.ub() - d.lb() + 1) as usize != d.values.len() {
                     return false;
+                }
+                if let Some(p) = &d.link {
+                    if d.kind != VarKind::Bool || p.var >= vars.len() {
+                        return false;
+                    }
                 }
                 vars.push(d.clone());
             }
@@ -407,6 +417,11 @@ pub fn candidates(case: &Case) -> Vec<Case> {
                 }
             }
             Op::AddVar(d) => {
+                if d.link.is_some() {
+                    let mut c = case.clone();
+                    c.ops[i] = Op::AddVar(VarDecl::boolean());
+                    out.push(c);
+                }
                 if d.values.len() > 1 && d.kind != VarKind::Bool {
                     for drop in [0, d.values.len() - 1, d.values.len() / 2] {
                         let mut vals = d.values.clone();
